@@ -73,8 +73,9 @@ func (s *Store) tryLockTractOnce(id core.TractID, mode int) (locked bool, should
 		return true, false
 	}
 
-	// Wait for READ or WRITE, but not LONG_WRITE
-	return false, state != LONG_WRITE
+	// Wait for READ or WRITE, but not LONG_WRITE. Note that 'state' is a busy-map
+	// value (-2 for a long writer), not one of the mode constants.
+	return false, state != -2
 }
 
 // Unlock 'id' which was locked in 'mode'.
